@@ -68,6 +68,7 @@ def _fn(name, env):
       'gtrec': lambda r: r['a'] > th,
       'gttup': lambda r: r[0] > th,
       'even': lambda x: x % 2 == 0,
+      'odd': lambda x: x % 2,                 # truthiness of a non-bool result
   }[name]
 
 class MemSink:
@@ -554,7 +555,7 @@ def singles_dict(full):
           if full or a == 0 or b == 0: s.append([(kind, fn, i, o)])
   for i in IN1: s += [[('filter', 'gt', i)], [('sink', i)]]
   for i in IN2: s += [[('filter', 'gt2', i)], [('sink', i)]]
-  s += [[('filter', 'gtrec', SELF)], [('sink', SELF)], [('filter', 'even', 'b')]]
+  s += [[('filter', 'gtrec', SELF)], [('sink', SELF)], [('filter', 'even', 'b')], [('filter', 'odd', 'b')]]
   s += [[('batch', n)] for n in (0, 1, 2, 3, 4)]
   s += [[('select', i, o)] for i, o in SELECTS]
   return s
